@@ -267,7 +267,7 @@ def check_lengths(out, facts):
         ev = sym.Evaluator(facts)
         ctx = sym.Ctx(ev, f)
         ctx.env[f['params'][0]['v']] = ('param', 'val', None)
-        v, t = ev.ev(f['thir'], ctx)
+        v, t = sym.fn_value(ev, f, ctx)
         why = []
         if sym.has_opaque(t) or [e for e in events(t) if e[0] in ('PANIC', 'ERR')]:
             why.append('length function has effects / unrecognised constructs')
